@@ -54,6 +54,9 @@ func createCron(node gen.Node) *cron {
 			return
 		}
 		actionTime := time.Now().Truncate(time.Minute)
+		c.RLock()
+		spooledFor := c.next
+		c.RUnlock()
 		fired := make(map[*cronJob]bool)
 		for {
 
@@ -71,6 +74,12 @@ func createCron(node gen.Node) *cron {
 				continue
 			}
 			fired[cj] = true
+
+			if actionTime.Equal(spooledFor) == false {
+				// the spool was filled for another minute (late timer, clock step):
+				// the job's spec was not checked against actionTime
+				continue
+			}
 
 			// check if actionTime is actually now:
 			// - no time adjustment happened,
